@@ -175,6 +175,8 @@ def plan(tier, seed):
     st_chunks, cov = fscommon.state_chunks(tier, seed, extra_roots=fscommon.SEED_STATES, per_chunk=4)
     thin = 4 if tier == 'quick' else 0
     chunks = [('std', c, thin) for c in st_chunks]
+    # names ending in a newline: `a` and `a\n` are different entries for the walker and for the matcher alike
+    chunks.append(('std', [['a', 'a\n', 'b/', 'b/a\n', 'b\n/', 'b\n/a']], thin))
     cov['pattern_thinning'] = ('first 3 flag sets: every pattern; other flag sets: every 4th pattern, offset rotating with '
                                'the flag set' if thin else 'none')
     cov['patterns'] = len(fspat.pattern_set('quick'))
